@@ -1,0 +1,147 @@
+//go:build verif
+
+// Verification hook for property C17 (structural consistency of the dataflow graphs).  Add-only: this file exports
+// thin wrappers around the unexported graph mutators of function_summary_graph.go / inter_procedural.go so that the
+// verification harness can run operation sequences on real SummaryGraph objects.  It is compiled only with
+// `-tags verif` and changes no existing declaration.
+
+package dataflow
+
+import (
+	"golang.org/x/tools/go/ssa"
+)
+
+func verifMark(index int, label string) *Mark {
+	idx := NonIndexMark
+	if index >= 0 {
+		idx = NewIndex(index)
+	}
+	m := NewMark(nil, DefaultMark, nil, idx, label)
+	return &m
+}
+
+// VerifUpdateEdgeInfo calls updateEdgeInfo (which calls addInEdge) for an edge sourceNode -> dest produced by a
+// mark with the given tuple index, label and access path.
+func VerifUpdateEdgeInfo(sourceNode GraphNode, dest GraphNode, index int, label string, accessPath string,
+	cond *ConditionInfo) {
+	updateEdgeInfo(MarkWithAccessPath{Mark: verifMark(index, label), AccessPath: accessPath}, dest, cond, sourceNode)
+}
+
+// VerifAddInEdge calls addInEdge.
+func VerifAddInEdge(dest GraphNode, source GraphNode, path EdgeInfo) {
+	addInEdge(dest, source, path)
+}
+
+// VerifAddParamEdgeByPos calls addParamEdgeByPos.
+func (g *SummaryGraph) VerifAddParamEdgeByPos(src int, dest int) bool {
+	return g.addParamEdgeByPos(src, dest)
+}
+
+// VerifAddReturnEdgeByPos calls addReturnEdgeByPos.
+func (g *SummaryGraph) VerifAddReturnEdgeByPos(src int, pos int) bool {
+	return g.addReturnEdgeByPos(src, pos)
+}
+
+// VerifMarkFor returns a mark that addEdge resolves to the given source node (and possibly to sibling nodes: all
+// call nodes of one call instruction share the CallReturn mark, all argument nodes of one instruction and value share
+// the CallSiteArg mark).  Returns nil for node kinds that cannot be the source of an edge.
+func VerifMarkFor(n GraphNode, index int, label string) *Mark {
+	idx := NonIndexMark
+	if index >= 0 {
+		idx = NewIndex(index)
+	}
+	var m Mark
+	switch x := n.(type) {
+	case *ParamNode:
+		m = NewMark(x.ssaNode, Parameter, nil, idx, label)
+	case *FreeVarNode:
+		m = NewMark(x.ssaNode, FreeVar, nil, idx, label)
+	case *CallNode:
+		m = NewMark(x.callSite.(ssa.Node), CallReturn, nil, idx, label)
+	case *CallNodeArg:
+		m = NewMark(x.parent.callSite.(ssa.Node), CallSiteArg, x.ssaValue, idx, label)
+	case *ClosureNode:
+		m = NewMark(x.instr, Closure, nil, idx, label)
+	case *BoundVarNode:
+		m = NewMark(x.parent.instr, BoundVar, x.ssaValue, idx, label)
+	case *SyntheticNode:
+		m = NewMark(x.instr.(ssa.Node), Synthetic, nil, idx, label)
+	case *AccessGlobalNode:
+		m = NewMark(x.instr.(ssa.Node), Global, x.Global.value, idx, label)
+	case *IfNode:
+		m = NewMark(x.ssaNode, If, nil, idx, label)
+	default:
+		return nil
+	}
+	return &m
+}
+
+// VerifSelectNodesFromMark calls selectNodesFromMark.
+func (g *SummaryGraph) VerifSelectNodesFromMark(m Mark) []GraphNode {
+	return g.selectNodesFromMark(m)
+}
+
+// VerifAddEdge calls addEdge.
+func (g *SummaryGraph) VerifAddEdge(m *Mark, accessPath string, dest GraphNode, cond *ConditionInfo) {
+	g.addEdge(MarkWithAccessPath{Mark: m, AccessPath: accessPath}, dest, cond)
+}
+
+// VerifAddEdgeTo dispatches to the add*Edge function that the intra-procedural analysis uses for a destination node
+// of that kind (addCallArgEdge, addCallEdge, addBoundVarEdge, addReturnEdge, addParamEdge, addFreeVarEdge,
+// addGlobalEdge, addSyntheticEdge, addBoundLabelEdge, addIfEdge).  Returns false when there is no such function for
+// the kind of dest (closure nodes are never the destination of an edge).
+func (g *SummaryGraph) VerifAddEdgeTo(m *Mark, accessPath string, dest GraphNode, cond *ConditionInfo) bool {
+	mark := MarkWithAccessPath{Mark: m, AccessPath: accessPath}
+	switch x := dest.(type) {
+	case *CallNodeArg:
+		g.addCallArgEdge(mark, cond, x.parent.callSite, x.ssaValue)
+	case *CallNode:
+		g.addCallEdge(mark, cond, x.callSite)
+	case *BoundVarNode:
+		g.addBoundVarEdge(mark, cond, x.parent.instr, x.ssaValue)
+	case *ReturnValNode:
+		for instr, tuple := range g.Returns {
+			if x.index < len(tuple) && tuple[x.index] == x {
+				g.addReturnEdge(mark, cond, instr, x.index)
+				break
+			}
+		}
+	case *ParamNode:
+		g.addParamEdge(mark, cond, x.ssaNode)
+	case *FreeVarNode:
+		g.addFreeVarEdge(mark, cond, x.ssaNode)
+	case *AccessGlobalNode:
+		g.addGlobalEdge(mark, cond, x.instr, x.Global.value)
+	case *SyntheticNode:
+		g.addSyntheticEdge(mark, cond, x.instr, x.label)
+	case *BoundLabelNode:
+		g.addBoundLabelEdge(mark, cond, x.instr)
+	case *IfNode:
+		g.addIfEdge(mark, cond, x.ssaNode)
+	default:
+		return false
+	}
+	return true
+}
+
+// VerifResolveCalleeSummary runs the linking step of BuildGraph for one call node: resolveCalleeSummary (which
+// registers the call site in the callee summary) and the assignment of CalleeSummary, under the same guard.
+func (g *InterProceduralFlowGraph) VerifResolveCalleeSummary(node *CallNode) *SummaryGraph {
+	names := map[string]*ssa.Function{}
+	for f := range g.Summaries {
+		names[f.String()] = f
+	}
+	if node.Callee() != nil && node.CalleeSummary == nil {
+		node.CalleeSummary = g.resolveCalleeSummary(node, names)
+	}
+	return node.CalleeSummary
+}
+
+// VerifCalleeKind returns the way the callee of the call node was resolved.
+func VerifCalleeKind(n *CallNode) int { return int(n.callee.Type) }
+
+// VerifSetConstructed sets the Constructed flag (the last step of RunIntraProcedural).
+func (g *SummaryGraph) VerifSetConstructed(b bool) { g.Constructed = b }
+
+// VerifGlobalValue returns the ssa global of a global node.
+func (g *GlobalNode) VerifGlobalValue() *ssa.Global { return g.value }
